@@ -174,8 +174,8 @@ def main(ctx, args):
             lines = []
             for i in range(ncg):
                 prog, _, _ = coregen.make_case(ctx.seed, k * ncg + i, "core")
-                # parameter annotations belong to an open finding class (C14-typed-param): strip them
-                lines.append(json.dumps({"id": f"coregen/{ctx.seed}/{k * ncg + i}", "src": re.sub(r":float", "", prog.src())}))
+                # (parameter annotations were an open finding class, C14-typed-param, repaired in /repo df2ca56: kept now)
+                lines.append(json.dumps({"id": f"coregen/{ctx.seed}/{k * ncg + i}", "src": prog.src(coregen.Knobs(annotate=(i % 2 == 0)))}))
             jobs.append(("gaps-texts", ["gaps-texts", str(ctx.seed * 1000 + k), "24" if not thorough else "0"], "\n".join(lines) + "\n"))
         jobs += [("nlrule", ctx.seed * 1000 + k, 20000 if not thorough else 200000) for k in range(4)]
 
